@@ -34,14 +34,20 @@ ASSUME PrintT(ToJson([limits |-> [c \in 1..3 |-> LimitsOf(c)]]))
 EnumInit == /\ ctx = [c \in Ctxs |-> NewCtx(LimitsOf(c))] /\ twin = <<>> /\ pc = Idle
             /\ evn = 0 /\ actor = 0 /\ last = "none"
             /\ hist = <<>> /\ tid = 0 /\ tl = 0 /\ tok = TRUE /\ twhy = NoWhy
-EnumNext == \E c \in Ctxs : \E kd \in Alphabet :
-              /\ Guard(kd, ctx[c])
-              /\ ctx' = [ctx EXCEPT ![c] = RunEvent(ctx[c], kd, evn + 1).st]
-              /\ evn' = evn + 1 /\ actor' = c
-              /\ hist' = Append(hist, [c |-> c, k |-> kd])
-              /\ UNCHANGED <<twin, pc, last, tid, tl, tok, twhy>>
-\* CONSTRAINT: a complete history is printed and not extended
-EnumEmit == evn < MAXN \/ (PrintT(ToJson([h |-> hist])) /\ FALSE)
+EnumExtend == /\ evn < MAXN
+              /\ \E c \in Ctxs : \E kd \in Alphabet :
+                   /\ Guard(kd, ctx[c])
+                   /\ ctx' = [ctx EXCEPT ![c] = RunEvent(ctx[c], kd, evn + 1).st]
+                   /\ evn' = evn + 1 /\ actor' = c
+                   /\ hist' = Append(hist, [c |-> c, k |-> kd])
+                   /\ UNCHANGED <<twin, pc, last, tid, tl, tok, twhy>>
+\* a complete history is printed exactly once and not extended.  (No CONSTRAINT is used for this: TLC's
+\* simulator retries for ever when every successor of a state violates a constraint.)
+EnumFinish == /\ evn = MAXN /\ tl = 0
+              /\ PrintT(ToJson([h |-> hist]))
+              /\ tl' = 1
+              /\ UNCHANGED <<cmvars, hist, tid, tok, twhy>>
+EnumNext == EnumExtend \/ EnumFinish
 
 \* ---------------- Trace -------------------------------------------------------------------------
 \* one line per history: [tid, nc, ev: <<[c, k, x, o, r, pr: <<projection of ctx 1, ...>>]>>]
